@@ -221,4 +221,102 @@ example : Csv.ValidRecord [(true, [97, 44, 98]), (false, [99])] := by
   simp only [List.mem_cons, List.mem_nil_iff, or_false] at hp
   rcases hp with rfl | rfl <;> simp [Csv.ValidField, Csv.plain, Csv.cr, Csv.comma, Csv.quote, Csv.lf]
 
+/-! ## the ten-file composition -/
+
+/-- a member as the parser reads it: looked up by name, read as CSV -/
+def fileOf (members : List (Str × Str)) (name : Str) : Option Csv.File :=
+  (member members name).bind Csv.readFile
+
+/-- a feed is *readable* when every file of the table that is present reads as CSV without a reader
+    error, and every file that is not optional is present -/
+def Readable (members : List (Str × Str)) (table : List (Str × Bool)) : Prop :=
+  ∀ p ∈ table,
+    match member members p.1 with
+    | none => p.2 = true
+    | some bytes => ∃ f, Csv.readFile bytes = some f ∧ f.bodyError = false
+
+/-- the state the table's actions compose, file by file in table order, from the files read -/
+def composeSt (env : Env) (fo : Str → Option Csv.File) : List (Str × Bool) → St → St
+  | [], st => st
+  | (name, _) :: rest, st =>
+    composeSt env fo rest (postProcess name (match fo name with | some f => action env name f st | none => st))
+
+/-- **ParseStatic on a readable feed is the composition of the per-file row functions**, each applied
+    to the file of its name, in table order (so every file is parsed after the files it refers to) -/
+theorem parse_readable (env : Env) (members : List (Str × Str)) (table : List (Str × Bool)) (st : St)
+    (h : Readable members table) :
+    runTable env members table st = .ok (composeSt env (fileOf members) table st).res := by
+  induction table generalizing st with
+  | nil => rfl
+  | cons p rest ih =>
+    obtain ⟨name, optional⟩ := p
+    have hp := h (name, optional) (by simp)
+    have hrest : Readable members rest := fun q hq => h q (by simp [hq])
+    simp only [runTable, composeSt, fileOf]
+    cases hm : member members name with
+    | none =>
+      simp only [hm] at hp
+      simp only [hp, if_true, Option.bind_none]
+      exact ih _ hrest
+    | some bytes =>
+      simp only [hm] at hp
+      obtain ⟨f, hf, hbe⟩ := hp
+      simp only [hf, hbe, Bool.and_false, Bool.false_eq_true, if_false, Option.bind_some]
+      exact ih _ hrest
+
+theorem C01_composition (env : Env) (members : List (Str × Str)) (h : Readable members Gen.FileTable.files) :
+    parse env members = .ok (composeSt env (fileOf members) Gen.FileTable.files { res := { zone := utc } }).res :=
+  parse_readable env members _ _ h
+
+
+theorem table_eq : Gen.FileTable.files = [(f_agency, false), (f_routes, false), (f_stops, false), (f_transfers, true), (f_calendar, true),
+    (f_calendar_dates, true), (f_shapes, true), (f_trips, false), (f_frequencies, true), (f_stop_times, false)] := by decide
+
+/-- …written out for a feed in which all ten files are present: every collection is the row function
+    of its file applied to the collections it refers to -/
+theorem C01_composition_explicit (env : Env) (fo : Str → Option Csv.File)
+    (fa fr fs ft fc fcd fsh ftr ff fst : Csv.File)
+    (h1 : fo f_agency = some fa) (h2 : fo f_routes = some fr) (h3 : fo f_stops = some fs) (h4 : fo f_transfers = some ft)
+    (h5 : fo f_calendar = some fc) (h6 : fo f_calendar_dates = some fcd) (h7 : fo f_shapes = some fsh) (h8 : fo f_trips = some ftr)
+    (h9 : fo f_frequencies = some ff) (h10 : fo f_stop_times = some fst) :
+    (composeSt env fo Gen.FileTable.files { res := { zone := utc } }).res =
+      let ag := parseAgencies fa
+      let routes := parseRoutes fr ag.1
+      let stops := parseStops env fs
+      let services := servicesOf (parseCalendarDates fcd (parseCalendar fc []))
+      let shapes := parseShapes env fsh
+      { agencies := ag.1, warnings := ag.2,
+        zone := (match ag.1 with | a :: _ => (env.zoneOf a.timezone).getD [85, 84, 67] | [] => [85, 84, 67]),
+        routes := routes, stops := stops, transfers := parseTransfers ft stops, services := services, shapes := shapes,
+        trips := addStopTimes env fst stops (addFrequencies ff (parseTrips ftr routes services shapes)) } := by
+  rw [table_eq]
+  simp only [composeSt, h1, h2, h3, h4, h5, h6, h7, h8, h9, h10]
+  have e : ∀ a b : Str, (a == b) = decide (a = b) := fun a b => by
+    cases h : decide (a = b) <;> simp_all
+  simp [action, postProcess, e, f_agency, f_routes, f_stops, f_transfers, f_calendar, f_calendar_dates, f_shapes, f_trips, f_frequencies, f_stop_times]
+  cases (parseAgencies fa).fst <;> rfl
+
+
+theorem takeWhile_all {α} (p : α → Bool) (l : List α) (h : ∀ x ∈ l, p x = true) : l.takeWhile p = l := by
+  induction l with
+  | nil => rfl
+  | cons x r ih => simp [List.takeWhile_cons, h x (by simp), ih (fun y hy => h y (by simp [hy]))]
+
+/-- **a table written as CSV, in any presentation, is read back as its header and rows**: whatever the
+    quoting, the line ending of each record and the final newline (and with or without a byte-order
+    mark), `csv.New` and the row loop see the header and exactly the rows written, without a reader
+    error – provided every row has as many cells as the header (encoding/csv's rule) -/
+theorem C01_readFile_presented (file : List (List (Bool × Csv.Field) × Bool)) (trailing : Bool)
+    (hv : ∀ p ∈ file, Csv.ValidRecord p.1) (hdr : List Str) (rows : List (List Str))
+    (hfile : file.map (fun p => p.1.map Prod.snd) = hdr :: rows) (hw : ∀ r ∈ rows, r.length = hdr.length) :
+    Csv.readFile (0xEF :: 0xBB :: 0xBF :: Csv.writeFile file trailing) = some ⟨hdr, rows, false⟩ := by
+  unfold Csv.readFile
+  rw [C01_bom]
+  have h := Csv.run_file [] file trailing hv
+  simp only [List.nil_append, hfile] at h
+  simp only [Csv.readAll, h]
+  have ht : rows.takeWhile (fun r => r.length == hdr.length) = rows :=
+    takeWhile_all _ _ (fun r hr => by simp [hw r hr])
+  simp [ht]
+
 end Gtfs.Static
